@@ -58,6 +58,8 @@ func checkSubQueries(g *fedfix.Gateway, fail func(clause, sig, msg string), qsig
 			}
 			if err != nil {
 				fail("subquery-fits-service", "c06/subquery-invalid/"+qsig, fmt.Sprintf("service %s received a sub-query it does not support: %v", svc, err))
+			} else if msg := fedfix.StrictKeys(g.Schemas[svc], rq); msg != "" {
+				fail("subquery-fits-service", "c06/subquery-key-fields/"+qsig, "service "+svc+": "+msg)
 			}
 		}
 	}
